@@ -161,6 +161,15 @@ Theorem preserve_norm_refuted :
 Proof. exact preserve_norm_refuted_lemma. Qed.
 Print Assumptions preserve_norm_refuted.
 
+(* EvolvableBERT.recreate_network on the current tree (re-initialise, then copy) does not even give an
+   unchanged architecture its parameters back — contrast same_arch_same_params; known finding, repair in
+   fixes/C04-bert-reset-parameters.patch *)
+Theorem bert_reset_refuted :
+  exists (init : param nat -> param nat) (old fresh : named nat),
+    NoDup (map fst old) /\ same_sig old fresh /\ recreate_bert_pinned init old fresh <> old.
+Proof. exact bert_reset_refuted_lemma. Qed.
+Print Assumptions bert_reset_refuted.
+
 (* ---- non-vacuity ---------------------------------------------------------------------------- *)
 Definition ex_old : named nat :=
   [("l.weight"%string, {| p_size := [2;2]; p_data := Dim [Dim [Sc 1; Sc 2]; Dim [Sc 3; Sc 4]] |});
